@@ -5,6 +5,7 @@ from contextlib import contextmanager
 from pathlib import Path
 from typing import Any
 
+import jax.numpy as jnp
 import orbax.checkpoint as checkpoint
 from hydra.utils import instantiate
 from loguru import logger
@@ -208,12 +209,15 @@ class CheckpointMixin(ABC):
             checkpoint_dir=checkpoint_dir,
             max_checkpoints=1,  # Only need to keep one when loading
             enable_async_checkpointing=True,
+            read_only=True,
         )
 
-        template_cp_state = self.solver_state
         step = step or load_manager.latest_step()
         if step is None:
             raise ValueError(f"No checkpoints found in {checkpoint_dir}")
+        template_cp_state = self._restore_template(
+            self.solver_state, load_manager, step
+        )
 
         cp_state = load_manager.restore(
             step,
@@ -232,6 +236,7 @@ class CheckpointMixin(ABC):
         checkpoint_dir: str | Path,
         max_checkpoints: int,
         enable_async_checkpointing: bool,
+        read_only: bool = False,
     ) -> checkpoint.CheckpointManager:
         """Create an Orbax checkpoint manager.
 
@@ -239,6 +244,8 @@ class CheckpointMixin(ABC):
             checkpoint_dir: Directory for storing checkpoints.
             max_checkpoints: Maximum number of checkpoints to retain.
             enable_async_checkpointing: Whether to use async checkpointing.
+            read_only: Whether the manager is only used to read existing checkpoints;
+                it can then also report what a stored step contains.
 
         Returns:
             Configured Orbax checkpoint manager.
@@ -250,10 +257,35 @@ class CheckpointMixin(ABC):
             enable_async_checkpointing=enable_async_checkpointing,
         )
 
+        if read_only:
+            return checkpoint.CheckpointManager(
+                checkpoint_dir,
+                options=options,
+                item_handlers=checkpoint.StandardCheckpointHandler(),
+            )
+
         return checkpoint.CheckpointManager(
             checkpoint_dir,
             options=options,
         )
+
+    @staticmethod
+    def _restore_template(template, manager, step):
+        """Complete the restore template with a placeholder for a stored policy.
+
+        A newly constructed solver may not hold a policy yet, whereas a checkpoint
+        written by a later solve() call on the same solver stores the policy extracted
+        by the previous call. Orbax skips entries that are None in the template, so the
+        stored policy would be dropped without a placeholder of matching shape.
+        """
+        if template.policy is None:
+            stored = manager.item_metadata(step)
+            stored_policy = None if stored is None else stored["policy"]
+            if stored_policy is not None:
+                template = template.replace(
+                    policy=jnp.zeros(stored_policy.shape, dtype=stored_policy.dtype)
+                )
+        return template
 
     @contextmanager
     def _checkpoint_operation(self):
@@ -349,13 +381,15 @@ class CheckpointMixin(ABC):
 
         solver = instantiate(config)
 
-        template_cp_state = solver.solver_state
-        manager = cls._create_checkpoint_manager(checkpoint_dir, 1, True)
+        manager = cls._create_checkpoint_manager(
+            checkpoint_dir, 1, True, read_only=True
+        )
 
         # Get step to restore
         step = step or manager.latest_step()
         if step is None:
             raise ValueError(f"No checkpoints found in {checkpoint_dir}")
+        template_cp_state = cls._restore_template(solver.solver_state, manager, step)
 
         # Restore state
         cp_state = manager.restore(
